@@ -411,6 +411,12 @@ func c03SetAlphabets() []setAlpha {
 			cty.CapsuleVal(capsTypes[0], capsPtrs[3]), cty.CapsuleVal(capsTypes[0], capsPtrs[4]), cty.CapsuleVal(capsTypes[0], capsPtrs[0]),
 		}},
 		{"numbers-hash-colliding", hashCollidingInts()},
+		// one fraction held at several mantissa precisions (distinct members by the documented
+		// equality - the upstream quirk recorded as a known finding - that no comparison orders)
+		{"numbers-same-value-several-precisions", []cty.Value{
+			cty.NumberFloatVal(0.1), cty.NumberFloatVal(0.1).Add(cty.NumberIntVal(0)), cty.NumberFloatVal(0.1).Multiply(parseNum("1")),
+			cty.NumberFloatVal(0.3), cty.NumberFloatVal(0.3).Multiply(parseNum("1")), cty.NumberIntVal(1),
+		}},
 		// compound members whose strings hold the characters a rendering of the member uses as
 		// quotes, separators and brackets: distinct members that any unescaped rendering confuses
 		{"lists-of-strings-with-delimiters", []cty.Value{
@@ -742,6 +748,20 @@ func c03Permutations(c *Ctx) {
 					}
 					if o := iterOrder(v); o != baseOrder {
 						u.Violation("perm.order", shape, fmt.Sprintf("iteration order depends on insertion order: %s vs %s", o, baseOrder))
+					}
+					// the order is a function of the members: reading the same set value again and
+					// again gives the same order (Go map iteration order, which the harness cannot
+					// steer, must not show through; 48 reads leave a per-read flip of 1/8 a chance
+					// of 0.2% per set to go unnoticed, and every alphabet has hundreds of sets)
+					first := goStr(v)
+					for k := 0; k < 48; k++ {
+						if again := goStr(v); again != first {
+							u.Violation("perm.unstable-order", shape, fmt.Sprintf("reading one set value repeatedly gives different orders: %s, then %s", first, again))
+							break
+						}
+					}
+					if !rawEq(v, v) {
+						u.Violation("RawEquals.reflexive", shape, fmt.Sprintf("%s is not RawEquals to itself", goStr(v)))
 					}
 				})
 			})
